@@ -1,6 +1,243 @@
-//! C15/C12: project generation without cargo (filled in below).
-use serde_json::Value;
+//! C15/C12: project generation without cargo.
+//!
+//! `gen_project` performs the call sequence of `prepare_project` in /repo/src/cli/commands.rs
+//! (which is private) from the public API: `collect_modules` -> `TypeChecker::check_with_imports`
+//! -> `IrCodegen` (add_module, the four scanners) -> `collect_rust_crates` -> `ProjectGenerator`
+//! (set_needs_*, add_rust_crate) -> `try_generate[_multi_file_nested]` -> `generate[_nested]`.
+//! cargo is never invoked. The checks ALSO run the real CLI (`incan_cli build` with a stub
+//! `cargo` first on PATH) and compare, so the binding does not rest on this replica alone.
+//!
+//! ops:
+//!  {"op":"gen_project","dir":abs,"files":{rel:text}?, "entry":rel,"out":abs,"keep":bool?}
+//!     -> {"obs":{"ok":bool,"stage":..,"err":..,"cargo_toml":text,"rs":{rel:text},
+//!                "needs":{"serde","tokio","axum"},"rust_crates":[..decl order..],
+//!                "modules":[{"name","path":[..]}..]}}
+//!  {"op":"emit_entry","dir":abs,"entry":rel}   what `--emit-rust` prints (collect_modules + try_generate)
+//!  {"op":"check_entry","dir":abs,"entry":rel}  what `--check` prints on failure (formatted diagnostics)
+use crate::{guarded_timeout, panic_json};
+use incan::backend::{IrCodegen, ProjectGenerator};
+use incan::cli::commands::{collect_modules, collect_rust_crates};
+use incan::frontend::ast::Program;
+use incan::frontend::{diagnostics, typechecker};
+use serde_json::{json, Map, Value};
+use std::fs;
+use std::path::{Path, PathBuf};
 
-pub fn dispatch(_op: &str, _req: &Value) -> Option<Value> {
-    None
+const LIMIT_MS: u64 = 30_000;
+
+fn write_files(dir: &Path, files: Option<&Map<String, Value>>) -> Result<(), String> {
+    fs::create_dir_all(dir).map_err(|e| format!("mkdir {}: {e}", dir.display()))?;
+    if let Some(files) = files {
+        for (rel, text) in files {
+            let p = dir.join(rel);
+            if let Some(parent) = p.parent() {
+                fs::create_dir_all(parent).map_err(|e| format!("mkdir {}: {e}", parent.display()))?;
+            }
+            fs::write(&p, text.as_str().unwrap_or("")).map_err(|e| format!("write {}: {e}", p.display()))?;
+        }
+    }
+    Ok(())
+}
+
+fn read_tree(root: &Path, rel: &Path, out: &mut Map<String, Value>) {
+    let Ok(rd) = fs::read_dir(root.join(rel)) else { return };
+    let mut entries: Vec<PathBuf> = rd.flatten().map(|e| e.path()).collect();
+    entries.sort();
+    for p in entries {
+        let name = p.file_name().map(|n| n.to_string_lossy().to_string()).unwrap_or_default();
+        let r = rel.join(&name);
+        if p.is_dir() {
+            if name != "target" {
+                read_tree(root, &r, out);
+            }
+        } else if let Ok(t) = fs::read_to_string(&p) {
+            out.insert(r.to_string_lossy().to_string(), json!(t));
+        }
+    }
+}
+
+/// The body of `prepare_project`, statement by statement (comments quote the original).
+fn prepare_project_replica(entry: &str, out_dir: &str) -> Value {
+    // let modules = collect_modules(file_path)?;
+    let modules = match collect_modules(entry) {
+        Ok(m) => m,
+        Err(e) => return json!({"ok": false, "stage": "collect", "err": e.message}),
+    };
+    let Some(main_module) = modules.last() else {
+        return json!({"ok": false, "stage": "collect", "err": "No modules found"});
+    };
+    let dep_modules = &modules[..modules.len() - 1];
+    let deps: Vec<(&str, &Program)> = dep_modules.iter().map(|m| (m.name.as_str(), &m.ast)).collect();
+
+    // Type check
+    let mut checker = typechecker::TypeChecker::new();
+    if let Err(errs) = checker.check_with_imports(&main_module.ast, &deps) {
+        let mut msg = String::new();
+        for err in &errs {
+            msg.push_str(&diagnostics::format_error(entry, &main_module.source, err));
+        }
+        return json!({"ok": false, "stage": "check", "err": msg.trim_end()});
+    }
+
+    // Derive project name from file path
+    let path = Path::new(entry);
+    let project_name = path.file_stem().and_then(|s| s.to_str()).unwrap_or("incan_project");
+
+    // Setup codegen
+    let mut codegen = IrCodegen::new();
+    for module in dep_modules {
+        codegen.add_module(&module.name, &module.ast);
+    }
+    codegen.scan_for_serde(&main_module.ast);
+    codegen.scan_for_async(&main_module.ast);
+    codegen.scan_for_web(&main_module.ast);
+    codegen.scan_for_list_helpers(&main_module.ast);
+
+    let needs_serde = codegen.needs_serde();
+    let needs_tokio = codegen.needs_tokio();
+    let needs_axum = codegen.needs_axum();
+    let rust_crates = collect_rust_crates(&main_module.ast);
+
+    // Setup project generator
+    let mut generator = ProjectGenerator::new(out_dir, project_name, true);
+    generator.set_needs_serde(needs_serde);
+    generator.set_needs_tokio(needs_tokio);
+    generator.set_needs_axum(needs_axum);
+    for crate_name in &rust_crates {
+        generator.add_rust_crate(crate_name);
+    }
+
+    let mods_json: Vec<Value> = modules
+        .iter()
+        .map(|m| json!({"name": m.name, "path": m.path_segments}))
+        .collect();
+    let info = json!({"needs": {"serde": needs_serde, "tokio": needs_tokio, "axum": needs_axum},
+                      "rust_crates": rust_crates, "modules": mods_json, "project_name": project_name});
+
+    // Generate Rust project files
+    let has_deps = !dep_modules.is_empty();
+    if has_deps {
+        let module_paths: Vec<Vec<String>> = dep_modules.iter().map(|m| m.path_segments.clone()).collect();
+        let (main_code, rust_modules) = match codegen.try_generate_multi_file_nested(&main_module.ast, &module_paths) {
+            Ok(x) => x,
+            Err(e) => return json!({"ok": false, "stage": "codegen", "err": format!("Code generation error: {e}"), "info": info}),
+        };
+        if let Err(e) = generator.generate_nested(&main_code, &rust_modules) {
+            return json!({"ok": false, "stage": "write", "err": format!("Error generating project: {e}"), "info": info});
+        }
+    } else {
+        let rust_code = match codegen.try_generate(&main_module.ast) {
+            Ok(x) => x,
+            Err(e) => return json!({"ok": false, "stage": "codegen", "err": format!("Code generation error: {e}"), "info": info}),
+        };
+        if let Err(e) = generator.generate(&rust_code) {
+            return json!({"ok": false, "stage": "write", "err": format!("Error generating project: {e}"), "info": info});
+        }
+    }
+    json!({"ok": true, "info": info})
+}
+
+fn op_gen_project(req: &Value) -> Value {
+    let dir = PathBuf::from(req["dir"].as_str().unwrap_or(""));
+    let out = req["out"].as_str().unwrap_or("").to_string();
+    let entry_rel = req["entry"].as_str().unwrap_or("main.incn").to_string();
+    let keep = req.get("keep").and_then(|x| x.as_bool()).unwrap_or(false);
+    if !dir.is_absolute() || !Path::new(&out).is_absolute() {
+        return json!({"tool_error": "gen_project needs absolute dir and out"});
+    }
+    if let Err(e) = write_files(&dir, req.get("files").and_then(|f| f.as_object())) {
+        return json!({"tool_error": e});
+    }
+    let _ = fs::remove_dir_all(&out);
+    let entry = dir.join(&entry_rel).to_string_lossy().to_string();
+    let out2 = out.clone();
+    let r = guarded_timeout(LIMIT_MS, move || prepare_project_replica(&entry, &out2));
+    let mut obs = match r {
+        Ok(v) => v,
+        Err(e) => panic_json(e),
+    };
+    let outp = Path::new(&out);
+    if let Ok(t) = fs::read_to_string(outp.join("Cargo.toml")) {
+        obs["cargo_toml"] = json!(t);
+    }
+    let mut rs = Map::new();
+    read_tree(outp, Path::new("src"), &mut rs);
+    obs["rs"] = Value::Object(rs);
+    if !keep {
+        let _ = fs::remove_dir_all(&out);
+    }
+    json!({"obs": obs})
+}
+
+/// What `incan --emit-rust <entry>` prints (same calls as `emit_rust` in commands.rs).
+fn op_emit_entry(req: &Value) -> Value {
+    let dir = PathBuf::from(req["dir"].as_str().unwrap_or(""));
+    if let Err(e) = write_files(&dir, req.get("files").and_then(|f| f.as_object())) {
+        return json!({"tool_error": e});
+    }
+    let entry = dir.join(req["entry"].as_str().unwrap_or("main.incn")).to_string_lossy().to_string();
+    let r = guarded_timeout(LIMIT_MS, move || {
+        let modules = match collect_modules(&entry) {
+            Ok(m) => m,
+            Err(e) => return json!({"ok": false, "stage": "collect", "err": e.message}),
+        };
+        let Some(main_module) = modules.last() else {
+            return json!({"ok": false, "stage": "collect", "err": "No modules found"});
+        };
+        let mut codegen = IrCodegen::new();
+        for module in &modules[..modules.len() - 1] {
+            codegen.add_module(&module.name, &module.ast);
+        }
+        match codegen.try_generate(&main_module.ast) {
+            Ok(code) => json!({"ok": true, "rust": code}),
+            Err(e) => json!({"ok": false, "stage": "codegen", "err": format!("Code generation error: {e}")}),
+        }
+    });
+    match r {
+        Ok(v) => json!({"obs": v}),
+        Err(e) => json!({"obs": panic_json(e)}),
+    }
+}
+
+/// What `incan --check <entry>` decides, with the formatted diagnostics in emission order.
+fn op_check_entry(req: &Value) -> Value {
+    let dir = PathBuf::from(req["dir"].as_str().unwrap_or(""));
+    if let Err(e) = write_files(&dir, req.get("files").and_then(|f| f.as_object())) {
+        return json!({"tool_error": e});
+    }
+    let entry_rel = req["entry"].as_str().unwrap_or("main.incn").to_string();
+    let entry = dir.join(&entry_rel).to_string_lossy().to_string();
+    let r = guarded_timeout(LIMIT_MS, move || {
+        let modules = match collect_modules(&entry) {
+            Ok(m) => m,
+            Err(e) => return json!({"ok": false, "stage": "collect", "err": e.message}),
+        };
+        let Some(main_module) = modules.last() else {
+            return json!({"ok": false, "stage": "collect", "err": "No modules found"});
+        };
+        let deps: Vec<(&str, &Program)> = modules[..modules.len() - 1]
+            .iter()
+            .map(|m| (m.name.as_str(), &m.ast))
+            .collect();
+        let mut checker = typechecker::TypeChecker::new();
+        match checker.check_with_imports(&main_module.ast, &deps) {
+            Ok(()) => json!({"ok": true, "modules": modules.iter().map(|m| m.name.clone()).collect::<Vec<_>>()}),
+            Err(errs) => json!({"ok": false, "stage": "check",
+                "messages": errs.iter().map(|e| e.message.clone()).collect::<Vec<_>>(),
+                "rendered": errs.iter().map(|e| diagnostics::format_error(&entry_rel, &main_module.source, e)).collect::<Vec<_>>()}),
+        }
+    });
+    match r {
+        Ok(v) => json!({"obs": v}),
+        Err(e) => json!({"obs": panic_json(e)}),
+    }
+}
+
+pub fn dispatch(op: &str, req: &Value) -> Option<Value> {
+    match op {
+        "gen_project" => Some(op_gen_project(req)),
+        "emit_entry" => Some(op_emit_entry(req)),
+        "check_entry" => Some(op_check_entry(req)),
+        _ => None,
+    }
 }
